@@ -24,6 +24,7 @@ structure StepOK (upper : String → String) (c : Char) (r : List Char) (off : N
   lp_eq : s.lp = recNl off lp lexeme
   tok : ∀ t, s.item = .inl t → TokFacts upper off lp lexeme t
   err : ∀ e, s.item = .inr e → lexeme = [c] ∧ e = mkErr lp off
+  ext_spec : ∀ t, s.item = .inl t → t.extent = specExtent (c :: r) t.value
 
 theorem readDouble_spec (upper : String → String) (c : Char) (r : List Char) (off : Nat) (lp : List Nat)
     (hc : ¬ isBlank c) (hw : isWordStart c = false) (hd : symDispatch.lookup c = some .doubleOp) :
@@ -31,16 +32,23 @@ theorem readDouble_spec (upper : String → String) (c : Char) (r : List Char) (
   obtain ⟨⟨ds, single⟩, he⟩ := dbl_total c hd
   have hnl : c ≠ '\n' := fun e => hc (by simp [isBlank, e])
   have hs := dbl_single_value c ds single he
+  have hplain : c ≠ '\'' ∧ c ≠ '"' ∧ c ≠ ';' := by
+    obtain ⟨h1, h2, h3⟩ := special_of_lookup c _ hd
+    exact ⟨fun e => by simpa using h1.mpr e, fun e => by simpa using h2.mpr e, fun e => by simpa using h3.mpr e⟩
   have single_ok : StepOK upper c r off lp ⟨.inl (mkToken lp off single.1 single.2.toList 1), r, off + 1, lp⟩ [c] := by
-    refine ⟨by simp, by simp, by simp, by simp [recNl, hnl], ?_, by simp⟩
-    intro t ht
-    simp only [Sum.inl.injEq] at ht
-    subst ht
-    refine ⟨rfl, rfl, rfl, fun _ _ => hs, ?_⟩
-    intro c' hc'
-    simp only [List.head?_cons, Option.some.injEq] at hc'
-    subst hc'
-    simp [hw]
+    refine ⟨by simp, by simp, by simp, by simp [recNl, hnl], ?_, by simp, ?_⟩
+    · intro t ht
+      simp only [Sum.inl.injEq] at ht
+      subst ht
+      refine ⟨rfl, rfl, rfl, fun _ _ => hs, ?_⟩
+      intro c' hc'
+      simp only [List.head?_cons, Option.some.injEq] at hc'
+      subst hc'
+      simp [hw]
+    · intro t ht
+      simp only [Sum.inl.injEq] at ht
+      subst ht
+      rw [specExtent_plain c r _ hplain]; simp [mkToken, hs]
   unfold readDouble
   simp only [he]
   cases r with
@@ -52,15 +60,19 @@ theorem readDouble_spec (upper : String → String) (c : Char) (r : List Char) (
     | some kv =>
       obtain ⟨k, v⟩ := kv
       obtain ⟨hv, hdn⟩ := dbl_double_value c d ds single k v he hl
-      refine ⟨[c, d], by simp, by simp, by simp, by simp [recNl, hnl, hdn], ?_, by simp⟩
-      intro t ht
-      simp only [Sum.inl.injEq] at ht
-      subst ht
-      refine ⟨rfl, rfl, rfl, fun _ _ => hv, ?_⟩
-      intro c' hc'
-      simp only [List.head?_cons, Option.some.injEq] at hc'
-      subst hc'
-      simp [hw]
+      refine ⟨[c, d], by simp, by simp, by simp, by simp [recNl, hnl, hdn], ?_, by simp, ?_⟩
+      · intro t ht
+        simp only [Sum.inl.injEq] at ht
+        subst ht
+        refine ⟨rfl, rfl, rfl, fun _ _ => hv, ?_⟩
+        intro c' hc'
+        simp only [List.head?_cons, Option.some.injEq] at hc'
+        subst hc'
+        simp [hw]
+      · intro t ht
+        simp only [Sum.inl.injEq] at ht
+        subst ht
+        rw [specExtent_plain c _ _ hplain]; simp [mkToken, hv]
 
 /-- a token whose lexeme starts with a char that is not a word start: the `word` clause is void -/
 theorem tokFacts_nonword (upper : String → String) (c : Char) (m : List Char) (off : Nat) (lp : List Nat)
@@ -80,19 +92,32 @@ theorem readSymbol_spec (upper : String → String) (c : Char) (r : List Char) (
   unfold readSymbol
   cases hd : symDispatch.lookup c with
   | none =>
-    refine ⟨[c], by simp, by simp, by simp, by simp [recNl, hnl], by simp, by simp⟩
+    refine ⟨[c], by simp, by simp, by simp, by simp [recNl, hnl], by simp, by simp, by simp⟩
   | some a =>
+    obtain ⟨sp1, sp2, sp3⟩ := special_of_lookup c a hd
     cases a with
     | tok k =>
-      refine ⟨[c], by simp, by simp, by simp, by simp [recNl, hnl], ?_, by simp⟩
-      intro t ht
-      simp only [Sum.inl.injEq] at ht
-      subst ht
-      exact tokFacts_nonword upper c [] off lp _ hw rfl rfl rfl (fun _ _ => rfl)
+      have hplain : c ≠ '\'' ∧ c ≠ '"' ∧ c ≠ ';' :=
+        ⟨fun e => by simpa using sp1.mpr e, fun e => by simpa using sp2.mpr e, fun e => by simpa using sp3.mpr e⟩
+      refine ⟨[c], by simp, by simp, by simp, by simp [recNl, hnl], ?_, by simp, ?_⟩
+      · intro t ht
+        simp only [Sum.inl.injEq] at ht
+        subst ht
+        exact tokFacts_nonword upper c [] off lp _ hw rfl rfl rfl (fun _ _ => rfl)
+      · intro t ht
+        simp only [Sum.inl.injEq] at ht
+        subst ht
+        rw [specExtent_plain c r _ hplain]; simp [mkToken]
     | doubleOp => exact readDouble_spec upper c r off lp hc hw hd
     | strSingle =>
       obtain ⟨m, h1, h2, h3⟩ := readStr1_spec r (off + 1) lp
-      refine ⟨c :: m, ?_, by simp, ?_, ?_, ?_, by simp⟩
+      have hq : c = '\'' := sp1.mp rfl
+      refine ⟨c :: m, ?_, by simp, ?_, ?_, ?_, by simp, ?_⟩
+      rotate_right
+      · intro t ht
+        simp only [Sum.inl.injEq] at ht
+        subst ht
+        simp only [mkToken, specExtent, hq, if_true, readStr1_len]; omega
       · simp only [List.cons_append, List.cons.injEq, true_and]; exact h1
       · simp only [h2, List.length_cons]; omega
       · simp only [h3, recNl, hnl, if_false]
@@ -103,7 +128,14 @@ theorem readSymbol_spec (upper : String → String) (c : Char) (r : List Char) (
         simp only [mkToken, h2, List.length_cons]; omega
     | strDouble =>
       obtain ⟨m, h1, h2, h3⟩ := readStr2_spec r (off + 1) lp
-      refine ⟨c :: m, ?_, by simp, ?_, ?_, ?_, by simp⟩
+      have hq : c = '"' := sp2.mp rfl
+      refine ⟨c :: m, ?_, by simp, ?_, ?_, ?_, by simp, ?_⟩
+      rotate_right
+      · intro t ht
+        simp only [Sum.inl.injEq] at ht
+        subst ht
+        have : ('"' : Char) ≠ '\'' := by decide
+        simp only [mkToken, specExtent, hq, this, if_true, if_false, readStr2_len]; omega
       · simp only [List.cons_append, List.cons.injEq, true_and]; exact h1
       · simp only [h2, List.length_cons]; omega
       · simp only [h3, recNl, hnl, if_false]
@@ -113,7 +145,15 @@ theorem readSymbol_spec (upper : String → String) (c : Char) (r : List Char) (
         refine tokFacts_nonword upper c m off lp _ hw rfl ?_ rfl (fun h _ => absurd rfl h)
         simp only [mkToken, h2, List.length_cons]; omega
     | comment =>
-      refine ⟨c :: r.takeWhile (fun c => !(c = '\n' ∨ c = '\r')), ?_, by simp, ?_, ?_, ?_, by simp⟩
+      have hq : c = ';' := sp3.mp rfl
+      refine ⟨c :: r.takeWhile (fun c => !(c = '\n' ∨ c = '\r')), ?_, by simp, ?_, ?_, ?_, by simp, ?_⟩
+      rotate_right
+      · intro t ht
+        simp only [Sum.inl.injEq] at ht
+        subst ht
+        have h1 : (';' : Char) ≠ '\'' := by decide
+        have h2 : (';' : Char) ≠ '"' := by decide
+        simp only [mkToken, specExtent, hq, h1, h2, if_true, if_false]
       · simp only [List.cons_append, List.takeWhile_append_dropWhile]
       · simp only [List.length_cons]; omega
       · simp only [recNl, hnl, if_false]
@@ -128,7 +168,14 @@ theorem readSymbol_spec (upper : String → String) (c : Char) (r : List Char) (
         simp only [mkToken, List.length_cons]; omega
     | intChar =>
       have hh := intChar_hash c hd
-      refine ⟨c :: r.takeWhile isDigit09, ?_, by simp, ?_, ?_, ?_, by simp⟩
+      have hplain : c ≠ '\'' ∧ c ≠ '"' ∧ c ≠ ';' :=
+        ⟨fun e => by simpa using sp1.mpr e, fun e => by simpa using sp2.mpr e, fun e => by simpa using sp3.mpr e⟩
+      refine ⟨c :: r.takeWhile isDigit09, ?_, by simp, ?_, ?_, ?_, by simp, ?_⟩
+      rotate_right
+      · intro t ht
+        simp only [Sum.inl.injEq] at ht
+        subst ht
+        rw [specExtent_plain c r _ hplain]; simp [mkToken]; omega
       · simp only [List.cons_append, List.takeWhile_append_dropWhile]
       · simp only [List.length_cons]; omega
       · simp only [recNl, hnl, if_false]
@@ -148,7 +195,12 @@ theorem readItem_spec (upper : String → String) (c : Char) (r : List Char) (of
   by_cases hw : isWordStart c = true
   · simp only [hw, if_true]
     have hcont := wordStart_cont c hw
-    refine ⟨(c :: r).takeWhile isWordCont, ?_, ?_, rfl, ?_, ?_, by simp⟩
+    refine ⟨(c :: r).takeWhile isWordCont, ?_, ?_, rfl, ?_, ?_, by simp, ?_⟩
+    rotate_right
+    · intro t ht
+      simp only [Sum.inl.injEq] at ht
+      subst ht
+      rw [specExtent_plain c r _ (wordStart_notSpecial c hw)]; rfl
     · simp only [List.takeWhile_append_dropWhile]
     · simp [hcont]
     · symm; apply recNl_noNl
@@ -167,7 +219,12 @@ theorem readItem_spec (upper : String → String) (c : Char) (r : List Char) (of
       have hcont := numStart_cont c hn
       have hne : (c :: r).takeWhile isNumCont = c :: r.takeWhile isNumCont := by
         simp [hcont]
-      refine ⟨(c :: r).takeWhile isNumCont, ?_, ?_, rfl, ?_, ?_, by simp⟩
+      refine ⟨(c :: r).takeWhile isNumCont, ?_, ?_, rfl, ?_, ?_, by simp, ?_⟩
+      rotate_right
+      · intro t ht
+        simp only [Sum.inl.injEq] at ht
+        subst ht
+        rw [specExtent_plain c r _ (numStart_notSpecial c hn)]; rfl
       · simp only [List.takeWhile_append_dropWhile]
       · simp [hne]
       · symm; apply recNl_noNl
